@@ -22,6 +22,7 @@ import (
 	"encoding/json"
 	"fmt"
 	"math/rand"
+	"os"
 	"sort"
 	"strconv"
 	"strings"
@@ -3397,5 +3398,1265 @@ func init() {
 		Name: "forin-write-ahead", Prop: "C07",
 		Rule: "for-in loops whose body stores into the very container being iterated, without changing its structure: arrays (element variable, with the index variable or with a position counter) and objects (key variable, with and without the value variable; keys whose sorted order differs from the literal's order) held in a variable, nested in a variable's member, being the record `$`, a field `$.f` of the record, and the root array iterated in BEGINFILE; 1-3 stores per pass to the slot 1-3 ahead, behind, the current one, a fixed position / key, the current key and (objects) a key not present; by `c[i] = v`, `c.k = v`, `++` / `--` (prefix and postfix), `+=`, `-=`; the value a constant, the current element, or the slot plus the current element (running sum); guarded by conditions on the index / key; mark-and-skip (an earlier pass marks a later entry done; the later pass must see it and `continue`), break / continue, the same container iterated again inside a pass, a trace of the bound variables before and after the stores and of the whole container; oracle: the trace of the reference interpreter (for-in fixes positions / sorted keys at loop entry and reads each element / value when its turn comes); every program is also compared with the model",
 		Gen:  c07GenWriteAhead,
+	})
+}
+
+// ---------------------------------------------------------------- forin-alias-history / forin-alias-records
+//
+// for-in visits the keys (sorted) / elements the container has WHEN THE LOOP STARTS,
+// whatever happened to the container between two loops and through whichever
+// expression: containers are shared by reference (assignment, argument passing,
+// for-in item binding, members of other containers, pluck), so a key added, a value
+// updated, an element pushed / popped through ANY alias -- or directly -- must show
+// in the next loop over every expression denoting the container, in its length and
+// in its printed form.  The generator keeps a heap of containers with sharing,
+// generates histories walk / change through an alias / walk again (2-4 rounds, per
+// record over several records, objects kept in globals across records) and executes
+// every step on its own heap as it goes: the expected trace (the keys each walk must
+// visit = the sorted key set at loop start) is the implementation-only oracle.
+
+type c07ahNode struct {
+	arr bool
+	m   map[string]interface{}
+	a   []interface{}
+}
+
+func c07ahCopy(v interface{}) interface{} {
+	n, ok := v.(*c07ahNode)
+	if !ok {
+		return v
+	}
+	cp := &c07ahNode{arr: n.arr}
+	if n.arr {
+		cp.a = make([]interface{}, len(n.a))
+		for i, e := range n.a {
+			cp.a[i] = c07ahCopy(e)
+		}
+	} else {
+		cp.m = make(map[string]interface{}, len(n.m))
+		for k, e := range n.m {
+			cp.m[k] = c07ahCopy(e)
+		}
+	}
+	return cp
+}
+
+func c07ahKeys(n *c07ahNode) []string {
+	keys := make([]string, 0, len(n.m))
+	for k := range n.m {
+		keys = append(keys, k)
+	}
+	sort.Strings(keys)
+	return keys
+}
+
+// c07ahPretty: what print shows (strings raw at the top, quoted inside containers; the
+// strings used here need no escapes). The same text is valid JSON for the input file.
+func c07ahPretty(v interface{}, top bool) string {
+	switch x := v.(type) {
+	case nil:
+		return "null"
+	case bool:
+		return fmt.Sprint(x)
+	case float64:
+		return strconv.FormatFloat(x, 'f', -1, 64)
+	case string:
+		if top {
+			return x
+		}
+		return `"` + x + `"`
+	case *c07ahNode:
+		if x.arr {
+			parts := make([]string, len(x.a))
+			for i, e := range x.a {
+				parts[i] = c07ahPretty(e, false)
+			}
+			return "[" + strings.Join(parts, ", ") + "]"
+		}
+		keys := c07ahKeys(x)
+		parts := make([]string, len(keys))
+		for i, k := range keys {
+			parts[i] = `"` + k + `": ` + c07ahPretty(x.m[k], false)
+		}
+		return "{" + strings.Join(parts, ", ") + "}"
+	}
+	return "?"
+}
+
+// c07ahLit: a jqawk literal for the tree, object members in random order
+func c07ahLit(r *rand.Rand, v interface{}) string {
+	switch x := v.(type) {
+	case nil:
+		return "null"
+	case bool:
+		return fmt.Sprint(x)
+	case float64:
+		return numLit(x)
+	case string:
+		l, _ := strLit(r, x)
+		return l
+	case *c07ahNode:
+		if x.arr {
+			parts := make([]string, len(x.a))
+			for i, e := range x.a {
+				parts[i] = c07ahLit(r, e)
+			}
+			return "[" + strings.Join(parts, ", ") + "]"
+		}
+		keys := c07ahKeys(x)
+		r.Shuffle(len(keys), func(i, j int) { keys[i], keys[j] = keys[j], keys[i] })
+		parts := make([]string, len(keys))
+		for i, k := range keys {
+			kt := mustStrLit(k)
+			if c07IsIdent(k) && chance(r, 0.5) {
+				kt = k
+			}
+			parts[i] = kt + ": " + c07ahLit(r, x.m[k])
+		}
+		return "{" + strings.Join(parts, ", ") + "}"
+	}
+	return "null"
+}
+
+type c07ahWorld struct {
+	env    map[string]interface{}
+	dollar interface{}
+	out    strings.Builder
+	fail   bool // the reference cannot decide (no oracle)
+}
+
+func (w *c07ahWorld) print(parts ...interface{}) {
+	for i, p := range parts {
+		if i > 0 {
+			w.out.WriteByte(' ')
+		}
+		w.out.WriteString(c07ahPretty(p, true))
+	}
+	w.out.WriteByte('\n')
+}
+
+type c07ahStep struct {
+	text string
+	run  func(w *c07ahWorld)
+}
+
+// c07ahRef: an expression denoting a container: a variable or `$`, then members / indexes
+type c07ahRef struct {
+	base string
+	path []interface{} // string: member, int: index
+	dot  []bool        // member written .name
+}
+
+func (f c07ahRef) text() string {
+	s := f.base
+	for i, p := range f.path {
+		switch k := p.(type) {
+		case string:
+			if f.dot[i] && c07IsIdent(k) {
+				s += "." + k
+			} else {
+				s += "[" + mustStrLit(k) + "]"
+			}
+		case int:
+			s += fmt.Sprintf("[%d]", k)
+		}
+	}
+	return s
+}
+
+func (f c07ahRef) sub(p interface{}, dot bool) c07ahRef {
+	return c07ahRef{f.base, append(append([]interface{}{}, f.path...), p), append(append([]bool{}, f.dot...), dot)}
+}
+
+func (f c07ahRef) parent() c07ahRef {
+	return c07ahRef{f.base, f.path[:len(f.path)-1], f.dot[:len(f.dot)-1]}
+}
+
+func c07ahChild(v interface{}, p interface{}) interface{} {
+	n, _ := v.(*c07ahNode)
+	if n == nil {
+		return nil
+	}
+	switch k := p.(type) {
+	case string:
+		if !n.arr {
+			return n.m[k]
+		}
+	case int:
+		if n.arr && k < len(n.a) {
+			return n.a[k]
+		}
+	}
+	return nil
+}
+
+func (f c07ahRef) get(w *c07ahWorld) interface{} {
+	v := w.dollar
+	if f.base != "$" {
+		v = w.env[f.base]
+	}
+	for _, p := range f.path {
+		v = c07ahChild(v, p)
+	}
+	return v
+}
+
+func (f c07ahRef) node(w *c07ahWorld) *c07ahNode {
+	n, _ := f.get(w).(*c07ahNode)
+	if n == nil {
+		w.fail = true
+	}
+	return n
+}
+
+// set: `ref = value` (whole-value replacement)
+func (f c07ahRef) set(w *c07ahWorld, val interface{}) {
+	if len(f.path) == 0 {
+		if f.base == "$" {
+			w.fail = true
+			return
+		}
+		w.env[f.base] = val
+		return
+	}
+	n, _ := f.parent().get(w).(*c07ahNode)
+	if n == nil {
+		w.fail = true
+		return
+	}
+	switch k := f.path[len(f.path)-1].(type) {
+	case string:
+		if n.arr {
+			w.fail = true
+			return
+		}
+		n.m[k] = val
+	case int:
+		if !n.arr || k >= len(n.a) {
+			w.fail = true
+			return
+		}
+		n.a[k] = val
+	}
+}
+
+type c07ahGen struct {
+	r        *rand.Rand
+	gw       *c07ahWorld // generation-time heap: every step runs on it as soon as it is generated
+	cur      *[]c07ahStep
+	refs     []c07ahRef // every expression known to denote a container
+	holders  []c07ahRef // containers made only to hold others: every child is a container
+	nTag     int
+	nKey     int
+	nVar     int
+	noDollar bool
+	recKeys  []string // record members usable as keys (string / number valued in every record)
+	used     map[string]int
+}
+
+func (g *c07ahGen) step(text string, run func(w *c07ahWorld)) {
+	*g.cur = append(*g.cur, c07ahStep{text, run})
+	run(g.gw)
+}
+
+func (g *c07ahGen) tag(p string) string {
+	g.nTag++
+	return fmt.Sprintf("%s%d", p, g.nTag)
+}
+
+func (g *c07ahGen) newVar(p string) string {
+	g.nVar++
+	return fmt.Sprintf("%s%d", p, g.nVar)
+}
+
+// newKey: a key no container has yet, sorting before / between / after the usual ones
+func (g *c07ahGen) newKey() string {
+	g.nKey++
+	return fmt.Sprintf("%s%d", pick(g.r, []string{"A", "Z", "a", "b", "m", "z", "zz", "0", "9", "é", "k ", "_"}), g.nKey)
+}
+
+func (g *c07ahGen) scalar() interface{} {
+	r := g.r
+	switch r.Intn(10) {
+	case 0:
+		return pick(r, []string{"s", "x y", "", "done"})
+	case 1:
+		return pick(r, []interface{}{true, false, nil})
+	}
+	return float64(r.Intn(30))
+}
+
+func (g *c07ahGen) container(arr bool, min int) *c07ahNode {
+	r := g.r
+	n := &c07ahNode{arr: arr}
+	cnt := min + r.Intn(4)
+	if arr {
+		for i := 0; i < cnt; i++ {
+			n.a = append(n.a, g.scalar())
+		}
+		return n
+	}
+	n.m = map[string]interface{}{}
+	pool := []string{"p", "q", "r", "b", "a10", "a9", "Z", "k y", "é", "10", "9", "B", "zb"}
+	r.Shuffle(len(pool), func(i, j int) { pool[i], pool[j] = pool[j], pool[i] })
+	for _, k := range pool[:cnt] {
+		n.m[k] = g.scalar()
+	}
+	if chance(r, 0.2) {
+		n.m["sub"] = g.container(chance(r, 0.3), 0)
+	}
+	return n
+}
+
+func (g *c07ahGen) aliases(x *c07ahNode) []c07ahRef {
+	var al []c07ahRef
+	for _, f := range g.refs {
+		if g.noDollar && f.base == "$" {
+			continue // END rule: there is no record
+		}
+		if n, _ := f.get(g.gw).(*c07ahNode); n == x {
+			al = append(al, f)
+		}
+	}
+	return al
+}
+
+func (g *c07ahGen) isHolder(f c07ahRef) bool {
+	for _, h := range g.holders {
+		if h.text() == f.text() {
+			return true
+		}
+	}
+	return false
+}
+
+// assign: `name = <literal>` (a new tree at every execution)
+func (g *c07ahGen) assign(name string, proto *c07ahNode) c07ahRef {
+	g.step(name+" = "+c07ahLit(g.r, proto), func(w *c07ahWorld) { w.env[name] = c07ahCopy(proto) })
+	f := c07ahRef{base: name}
+	g.refs = append(g.refs, f)
+	return f
+}
+
+// mkAlias: one more expression denoting the container h denotes
+func (g *c07ahGen) mkAlias(h c07ahRef) {
+	r := g.r
+	x, _ := h.get(g.gw).(*c07ahNode)
+	if x == nil {
+		return
+	}
+	kind := r.Intn(6)
+	if kind == 4 && (len(h.path) == 0 || !func() bool { _, s := h.path[len(h.path)-1].(string); return s }()) {
+		kind = 0
+	}
+	switch kind {
+	case 0: // a second variable
+		name := g.newVar(pick(r, []string{"b", "al", "same"}))
+		g.step(name+" = "+h.text(), func(w *c07ahWorld) { w.env[name] = h.get(w) })
+		g.refs = append(g.refs, c07ahRef{base: name})
+		g.used["alias-var"]++
+	case 1: // an array holding it (and a sibling of the same kind)
+		name := g.newVar("hs")
+		sib := g.container(x.arr, 0)
+		at := r.Intn(2)
+		parts := []string{c07ahLit(r, sib), c07ahLit(r, sib)}
+		parts[at] = h.text()
+		twice := chance(r, 0.2)
+		if twice {
+			parts[1-at] = h.text()
+		}
+		g.step(name+" = ["+strings.Join(parts, ", ")+"]", func(w *c07ahWorld) {
+			n := &c07ahNode{arr: true, a: []interface{}{c07ahCopy(sib), c07ahCopy(sib)}}
+			n.a[at] = h.get(w)
+			if twice {
+				n.a[1-at] = h.get(w)
+			}
+			w.env[name] = n
+		})
+		hf := c07ahRef{base: name}
+		g.refs = append(g.refs, hf.sub(0, false), hf.sub(1, false))
+		g.holders = append(g.holders, hf)
+		g.used["alias-array-element"]++
+	case 2: // an object holding it
+		name := g.newVar("ho")
+		sib := g.container(x.arr, 0)
+		mine, other := "p", "q"
+		if chance(r, 0.5) {
+			mine, other = "q", "p"
+		}
+		parts := []string{mine + ": " + h.text(), mustStrLit(other) + ": " + c07ahLit(r, sib)}
+		if chance(r, 0.5) {
+			parts[0], parts[1] = parts[1], parts[0]
+		}
+		g.step(name+" = {"+strings.Join(parts, ", ")+"}", func(w *c07ahWorld) {
+			w.env[name] = &c07ahNode{m: map[string]interface{}{mine: h.get(w), other: c07ahCopy(sib)}}
+		})
+		hf := c07ahRef{base: name}
+		g.refs = append(g.refs, hf.sub(mine, chance(r, 0.5)), hf.sub(other, true))
+		g.holders = append(g.holders, hf)
+		g.used["alias-object-member"]++
+	case 3: // nested two deep
+		name := g.newVar("hh")
+		g.step(name+" = {deep: ["+h.text()+"], n: 1}", func(w *c07ahWorld) {
+			w.env[name] = &c07ahNode{m: map[string]interface{}{"n": float64(1), "deep": &c07ahNode{arr: true, a: []interface{}{h.get(w)}}}}
+		})
+		hf := c07ahRef{base: name}.sub("deep", chance(r, 0.5))
+		g.refs = append(g.refs, hf.sub(0, false))
+		g.holders = append(g.holders, hf)
+		g.used["alias-nested"]++
+	case 4: // pluck of the object that holds it: the new object shares the member
+		name := g.newVar("pl")
+		key := h.path[len(h.path)-1].(string)
+		par := h.parent()
+		g.step(name+" = "+par.text()+".pluck("+mustStrLit(key)+")", func(w *c07ahWorld) {
+			w.env[name] = &c07ahNode{m: map[string]interface{}{key: c07ahChild(par.get(w), key)}}
+		})
+		hf := c07ahRef{base: name}
+		g.refs = append(g.refs, hf.sub(key, chance(r, 0.5)))
+		g.holders = append(g.holders, hf)
+		g.used["alias-pluck"]++
+	case 5: // pushed onto an array
+		name := g.newVar("keep")
+		g.step(name+" = []\n"+name+".push("+h.text()+")", func(w *c07ahWorld) {
+			w.env[name] = &c07ahNode{arr: true, a: []interface{}{h.get(w)}}
+		})
+		hf := c07ahRef{base: name}
+		g.refs = append(g.refs, hf.sub(0, false))
+		g.holders = append(g.holders, hf)
+		g.used["alias-pushed"]++
+	}
+}
+
+// slot: the text of `c[key]` for a constant key; pre is a statement to run before
+func (g *c07ahGen) slot(c string, key string) (pre, target string) {
+	r := g.r
+	if n, err := strconv.Atoi(key); err == nil && strconv.Itoa(n) == key && n >= 0 && chance(r, 0.6) {
+		return "", fmt.Sprintf("%s[%d]", c, n)
+	}
+	switch {
+	case c07IsIdent(key) && chance(r, 0.45):
+		return "", c + "." + key
+	case chance(r, 0.25):
+		return "kv = " + mustStrLit(key) + "\n", c + "[kv]"
+	}
+	return "", c + "[" + mustStrLit(key) + "]"
+}
+
+func c07ahSet(w *c07ahWorld, cv interface{}, key string, val interface{}) {
+	n, _ := cv.(*c07ahNode)
+	if n == nil || n.arr {
+		w.fail = true
+		return
+	}
+	n.m[key] = val
+}
+
+func c07ahAdd(w *c07ahWorld, cv interface{}, key string, d float64) {
+	n, _ := cv.(*c07ahNode)
+	if n == nil || n.arr {
+		w.fail = true
+		return
+	}
+	old, present := n.m[key]
+	f, isNum := old.(float64)
+	if present && !isNum {
+		w.fail = true
+		return
+	}
+	n.m[key] = f + d
+}
+
+func c07ahPush(w *c07ahWorld, cv interface{}, val interface{}) {
+	n, _ := cv.(*c07ahNode)
+	if n == nil || !n.arr {
+		w.fail = true
+		return
+	}
+	n.a = append(n.a, val)
+}
+
+// walkNode: the trace of `for (k[, v] in n) print tag, k[, v]`
+func c07ahWalkNode(w *c07ahWorld, n *c07ahNode, tag string, two bool) {
+	if n.arr {
+		for i, e := range n.a {
+			if two {
+				w.print(tag, e, float64(i))
+			} else {
+				w.print(tag, e)
+			}
+		}
+		return
+	}
+	for _, k := range c07ahKeys(n) {
+		if two {
+			w.print(tag, k, n.m[k])
+		} else {
+			w.print(tag, k)
+		}
+	}
+}
+
+// walk: a for-in over h with a trace, then the container itself and / or its length
+func (g *c07ahGen) walk(h c07ahRef, plain bool) {
+	r := g.r
+	x, _ := h.get(g.gw).(*c07ahNode)
+	if x == nil {
+		return
+	}
+	tag := g.tag("w")
+	two := chance(r, 0.5)
+	v1, v2 := pick(r, []string{"k", "key"}), pick(r, []string{"v", "val"})
+	if x.arr {
+		v1, v2 = pick(r, []string{"x", "e"}), pick(r, []string{"i", "idx"})
+	}
+	head := "for (" + v1 + " in " + h.text() + ")"
+	pr := "print " + mustStrLit(tag) + ", " + v1
+	if two {
+		head = "for (" + v1 + ", " + v2 + " in " + h.text() + ")"
+		pr += ", " + v2
+	}
+	variant := 0
+	if !plain && chance(r, 0.45) {
+		variant = 1 + r.Intn(5)
+	}
+	keys := []string{}
+	if !x.arr {
+		keys = c07ahKeys(x)
+	}
+	if variant >= 1 && variant <= 3 && (x.arr || len(keys) == 0) {
+		variant = 4
+	}
+	al := g.aliases(x)
+	if variant == 5 {
+		// through the item variable of a loop over a holder
+		var hs []c07ahRef
+		for _, f := range al {
+			if len(f.path) > 0 && g.isHolder(f.parent()) {
+				hs = append(hs, f.parent())
+			}
+		}
+		if len(hs) == 0 {
+			variant = 0
+		} else {
+			p := pick(r, hs)
+			pn, _ := p.get(g.gw).(*c07ahNode)
+			outer := "for (it in " + p.text() + ")"
+			if pn != nil && !pn.arr {
+				outer = "for (kk, it in " + p.text() + ")"
+			}
+			inner := strings.Replace(head, " in "+h.text()+")", " in it)", 1)
+			text := outer + " " + inner + " " + pr
+			if chance(r, 0.5) {
+				text = outer + " {\n" + inner + " {\n" + pr + "\n}\n}"
+			}
+			g.step(text, func(w *c07ahWorld) {
+				pn := p.node(w)
+				if pn == nil {
+					return
+				}
+				var kids []interface{}
+				if pn.arr {
+					kids = append(kids, pn.a...)
+				} else {
+					for _, k := range c07ahKeys(pn) {
+						kids = append(kids, pn.m[k])
+					}
+				}
+				for _, kid := range kids {
+					kn, _ := kid.(*c07ahNode)
+					if kn == nil {
+						w.fail = true
+						return
+					}
+					c07ahWalkNode(w, kn, tag, two)
+				}
+			})
+			g.used["walk-item"]++
+		}
+	}
+	switch variant {
+	case 0:
+		text := head + " " + pr
+		if chance(r, 0.3) {
+			text = head + " {\n" + pr + "\n}"
+		}
+		g.step(text, func(w *c07ahWorld) {
+			if n := h.node(w); n != nil {
+				c07ahWalkNode(w, n, tag, two)
+			}
+		})
+		g.used["walk-plain"]++
+	case 1, 2, 3:
+		// at one key: a new key stored through an alias (not visited by this loop), a break, or the
+		// same object walked again through an alias
+		at := pick(r, keys)
+		via := pick(r, al)
+		cond := "if (" + v1 + " == " + mustStrLit(at) + ") "
+		var act string
+		var do func(w *c07ahWorld) bool
+		switch variant {
+		case 1:
+			nk, val := g.newKey(), g.scalar()
+			pre, target := g.slot(via.text(), nk)
+			act = cond + "{\n" + pre + target + " = " + c07ahLit(r, val) + "\n}"
+			do = func(w *c07ahWorld) bool { c07ahSet(w, via.get(w), nk, val); return false }
+			g.used["walk-insert"]++
+		case 2:
+			act = cond + "break"
+			do = func(w *c07ahWorld) bool { return true }
+			g.used["walk-break"]++
+		default:
+			itag := tag + "i"
+			act = cond + "for (k2 in " + via.text() + ") print " + mustStrLit(itag) + ", k2"
+			do = func(w *c07ahWorld) bool {
+				if n := via.node(w); n != nil {
+					c07ahWalkNode(w, n, itag, false)
+				}
+				return false
+			}
+			g.used["walk-nested"]++
+		}
+		g.step(head+" {\n"+pr+"\n"+act+"\n}", func(w *c07ahWorld) {
+			n := h.node(w)
+			if n == nil || n.arr {
+				w.fail = true
+				return
+			}
+			for _, k := range c07ahKeys(n) {
+				if two {
+					w.print(tag, k, n.m[k])
+				} else {
+					w.print(tag, k)
+				}
+				if k == at && do(w) {
+					break
+				}
+			}
+		})
+	case 4:
+		g.step("cnt = 0\n"+head+" cnt++\nprint "+mustStrLit(tag)+", cnt", func(w *c07ahWorld) {
+			if n := h.node(w); n != nil {
+				w.print(tag, float64(len(n.a)+len(n.m)))
+			}
+		})
+		g.used["walk-count"]++
+	}
+	// the container as print and length() see it
+	show := h
+	if chance(r, 0.2) {
+		show = pick(r, al)
+	}
+	otag := g.tag("o")
+	switch r.Intn(3) {
+	case 0:
+		g.step("print "+mustStrLit(otag)+", "+show.text(), func(w *c07ahWorld) {
+			if n := show.node(w); n != nil {
+				w.print(otag, n)
+			}
+		})
+	case 1:
+		g.step("print "+mustStrLit(otag)+", "+show.text()+".length()", func(w *c07ahWorld) {
+			if n := show.node(w); n != nil {
+				w.print(otag, float64(len(n.a)+len(n.m)))
+			}
+		})
+	default:
+		g.step("print "+mustStrLit(otag)+", "+h.text()+".length(), "+show.text(), func(w *c07ahWorld) {
+			n, s := h.node(w), show.node(w)
+			if n != nil && s != nil {
+				w.print(otag, float64(len(n.a)+len(n.m)), s)
+			}
+		})
+	}
+}
+
+const c07ahFuncs = `function ahput(rec, key, val) { rec[key] = val }
+function ahput2(r2, key2, val2) { ahput(r2, key2, val2) }
+function ahbump(rec, key) { rec[key]++ }
+function ahwput(rec, key) {
+  for (q in rec) print "f", q
+  rec[key] = true
+  for (q, qv in rec) print "g", q, qv
+}
+function ahgrow(a, val) { a.push(val) }
+function ahwpush(a, val) {
+  for (q in a) print "f", q
+  a.push(val)
+  for (q, qi in a) print "g", q, qi
+}
+function ahsame(x) { return x }
+`
+
+// itemLoop: a change made through the item variable of a for-in over a container that holds
+// x; do is applied to every child the guard lets through
+func (g *c07ahGen) itemLoop(x *c07ahNode, body string, do func(w *c07ahWorld, child interface{})) bool {
+	r := g.r
+	type cand struct {
+		par c07ahRef
+		at  interface{}
+	}
+	var cs []cand
+	for _, f := range g.aliases(x) {
+		if len(f.path) > 0 {
+			cs = append(cs, cand{f.parent(), f.path[len(f.path)-1]})
+		}
+	}
+	if len(cs) == 0 {
+		return false
+	}
+	c := pick(r, cs)
+	pn, _ := c.par.get(g.gw).(*c07ahNode)
+	if pn == nil {
+		return false
+	}
+	guarded := !g.isHolder(c.par) || chance(r, 0.5)
+	var text string
+	if pn.arr {
+		if guarded {
+			text = fmt.Sprintf("for (it, ii in %s) if (ii == %d) %s", c.par.text(), c.at.(int), body)
+		} else {
+			text = fmt.Sprintf("for (it in %s) %s", c.par.text(), body)
+		}
+	} else {
+		if guarded {
+			text = fmt.Sprintf("for (kk, it in %s) if (kk == %s) %s", c.par.text(), mustStrLit(c.at.(string)), body)
+		} else {
+			text = fmt.Sprintf("for (kk, it in %s) {\n%s\n}", c.par.text(), body)
+		}
+	}
+	g.step(text, func(w *c07ahWorld) {
+		pn := c.par.node(w)
+		if pn == nil {
+			return
+		}
+		if guarded {
+			do(w, c07ahChild(pn, c.at))
+			return
+		}
+		var kids []interface{}
+		if pn.arr {
+			kids = append(kids, pn.a...)
+		} else {
+			for _, k := range c07ahKeys(pn) {
+				kids = append(kids, pn.m[k])
+			}
+		}
+		for _, kid := range kids {
+			do(w, kid)
+		}
+	})
+	g.used["change-item-variable"]++
+	return true
+}
+
+// key: a constant new key, an existing key (value update), or a member of the record
+func (g *c07ahGen) key(x *c07ahNode) (lit string, field string) {
+	r := g.r
+	if len(g.recKeys) > 0 && chance(r, 0.4) {
+		return "", pick(r, g.recKeys)
+	}
+	if keys := c07ahKeys(x); len(keys) > 0 && chance(r, 0.25) {
+		return pick(r, keys), ""
+	}
+	return g.newKey(), ""
+}
+
+func c07ahRecKey(w *c07ahWorld, field string) (string, bool) {
+	return c07KeyOf(c07ahChild(w.dollar, field))
+}
+
+// mutate: one change of the container h denotes, mostly through another expression
+func (g *c07ahGen) mutate(h c07ahRef) {
+	r := g.r
+	x, _ := h.get(g.gw).(*c07ahNode)
+	if x == nil {
+		return
+	}
+	al := g.aliases(x)
+	via := h
+	if chance(r, 0.85) {
+		var others []c07ahRef
+		for _, f := range al {
+			if f.text() != h.text() {
+				others = append(others, f)
+			}
+		}
+		if len(others) > 0 {
+			via = pick(r, others)
+		}
+	}
+	vt := via.text()
+	if x.arr {
+		val := g.scalar()
+		vl := c07ahLit(r, val)
+		switch r.Intn(9) {
+		case 0, 1:
+			g.step(vt+".push("+vl+")", func(w *c07ahWorld) { c07ahPush(w, via.get(w), val) })
+			g.used["change-push"]++
+		case 2:
+			fn := pick(r, []string{"ahgrow", "ahgrow", "ahwpush"})
+			g.step(fn+"("+vt+", "+vl+")", func(w *c07ahWorld) {
+				n := via.node(w)
+				if n == nil || !n.arr {
+					w.fail = true
+					return
+				}
+				if fn == "ahwpush" {
+					c07ahWalkNode(w, n, "f", false)
+				}
+				n.a = append(n.a, val)
+				if fn == "ahwpush" {
+					c07ahWalkNode(w, n, "g", true)
+				}
+			})
+			g.used["change-function-push"]++
+		case 3:
+			g.step(vt+"["+vt+".length()] = "+vl, func(w *c07ahWorld) { c07ahPush(w, via.get(w), val) })
+			g.used["change-append-by-index"]++
+		case 4:
+			m := pick(r, []string{"pop", "popfirst"})
+			ptag := g.tag("p")
+			g.step("u = "+vt+"."+m+"()\nprint "+mustStrLit(ptag)+", u", func(w *c07ahWorld) {
+				n := via.node(w)
+				if n == nil || !n.arr {
+					w.fail = true
+					return
+				}
+				if len(n.a) == 0 {
+					w.print(ptag, nil)
+					return
+				}
+				if m == "pop" {
+					w.print(ptag, n.a[len(n.a)-1])
+					n.a = n.a[:len(n.a)-1]
+				} else {
+					w.print(ptag, n.a[0])
+					n.a = n.a[1:]
+				}
+			})
+			g.used["change-"+m]++
+		case 5:
+			if !g.itemLoop(x, "it.push("+vl+")", func(w *c07ahWorld, c interface{}) { c07ahPush(w, c, val) }) {
+				g.step(vt+".push("+vl+")", func(w *c07ahWorld) { c07ahPush(w, via.get(w), val) })
+			}
+		case 6:
+			// index 0 exists, or (empty array) is the append position
+			g.step(vt+"[0] = "+vl, func(w *c07ahWorld) {
+				n := via.node(w)
+				if n == nil || !n.arr {
+					w.fail = true
+					return
+				}
+				if len(n.a) == 0 {
+					n.a = append(n.a, val)
+				} else {
+					n.a[0] = val
+				}
+			})
+			g.used["change-element"]++
+		case 7:
+			g.step("ahsame("+vt+").push("+vl+")", func(w *c07ahWorld) { c07ahPush(w, via.get(w), val) })
+			g.used["change-function-result"]++
+		case 8:
+			g.replace(h, true)
+		}
+		return
+	}
+	lit, field := g.key(x)
+	keyOf := func(w *c07ahWorld) (string, bool) {
+		if field == "" {
+			return lit, true
+		}
+		k, ok := c07ahRecKey(w, field)
+		if !ok {
+			w.fail = true
+		}
+		return k, ok
+	}
+	pre, target, keyText := "", "", ""
+	if field != "" {
+		keyText = pick(r, []string{"$." + field, "$[" + mustStrLit(field) + "]"})
+		target = vt + "[" + keyText + "]"
+		g.used["key-from-record"]++
+	} else {
+		keyText = mustStrLit(lit)
+		pre, target = g.slot(vt, lit)
+	}
+	cur, present := interface{}(nil), false
+	if field == "" {
+		cur, present = x.m[lit]
+	} else if k, ok := c07ahRecKey(g.gw, field); ok {
+		cur, present = x.m[k]
+	}
+	_, curNum := cur.(float64)
+	countable := !present || curNum
+	val := g.scalar()
+	vl := c07ahLit(r, val)
+	set := func(w *c07ahWorld) {
+		if k, ok := keyOf(w); ok {
+			c07ahSet(w, via.get(w), k, val)
+		}
+	}
+	kind := r.Intn(12)
+	if !countable && (kind == 2 || kind == 3 || kind == 6) {
+		kind = 0
+	}
+	switch kind {
+	case 0, 1:
+		g.step(pre+target+" = "+vl, set)
+		g.used["change-store"]++
+	case 2:
+		form := r.Intn(3)
+		text := []string{target + "++", "u = ++" + target, target + " += 1"}[form]
+		g.step(pre+text, func(w *c07ahWorld) {
+			if k, ok := keyOf(w); ok {
+				c07ahAdd(w, via.get(w), k, 1)
+			}
+		})
+		g.used["change-increment"]++
+	case 3:
+		d := float64(2 + r.Intn(5))
+		op := pick(r, []string{" += ", " -= "})
+		g.step(pre+target+op+numLit(d), func(w *c07ahWorld) {
+			if k, ok := keyOf(w); ok {
+				if op == " -= " {
+					c07ahAdd(w, via.get(w), k, -d)
+				} else {
+					c07ahAdd(w, via.get(w), k, d)
+				}
+			}
+		})
+		g.used["change-compound"]++
+	case 4:
+		// auto-creation: a new member holding a new object (one or two levels)
+		nk := g.newKey()
+		p1, t1 := g.slot(vt, nk)
+		deep := chance(r, 0.3)
+		text := p1 + t1 + ".m = " + vl
+		if deep {
+			text = p1 + t1 + ".mid[\"m\"] = " + vl
+		}
+		g.step(text, func(w *c07ahWorld) {
+			n := via.node(w)
+			if n == nil || n.arr {
+				w.fail = true
+				return
+			}
+			// the members on the way are created where missing (a later record finds them)
+			path := []string{nk}
+			if deep {
+				path = append(path, "mid")
+			}
+			for _, k := range path {
+				c, there := n.m[k]
+				cn, _ := c.(*c07ahNode)
+				if !there {
+					cn = &c07ahNode{m: map[string]interface{}{}}
+					n.m[k] = cn
+				} else if cn == nil || cn.arr {
+					w.fail = true
+					return
+				}
+				n = cn
+			}
+			n.m["m"] = val
+		})
+		g.used["change-auto-create"]++
+	case 5:
+		fn := pick(r, []string{"ahput", "ahput2"})
+		g.step(fn+"("+vt+", "+keyText+", "+vl+")", set)
+		g.used["change-function-parameter"]++
+	case 6:
+		g.step("ahbump("+vt+", "+keyText+")", func(w *c07ahWorld) {
+			if k, ok := keyOf(w); ok {
+				c07ahAdd(w, via.get(w), k, 1)
+			}
+		})
+		g.used["change-function-parameter"]++
+	case 7:
+		g.step("ahwput("+vt+", "+keyText+")", func(w *c07ahWorld) {
+			k, ok := keyOf(w)
+			n := via.node(w)
+			if !ok || n == nil || n.arr {
+				w.fail = true
+				return
+			}
+			c07ahWalkNode(w, n, "f", false)
+			n.m[k] = true
+			c07ahWalkNode(w, n, "g", true)
+		})
+		g.used["change-function-walks"]++
+	case 8, 9:
+		if field != "" {
+			keyText = pick(r, []string{"$." + field, "$[" + mustStrLit(field) + "]"})
+		}
+		body := "it[" + keyText + "] = " + vl
+		if field == "" && c07IsIdent(lit) && chance(r, 0.5) {
+			body = "it." + lit + " = " + vl
+		}
+		if !g.itemLoop(x, body, func(w *c07ahWorld, c interface{}) {
+			if k, ok := keyOf(w); ok {
+				c07ahSet(w, c, k, val)
+			}
+		}) {
+			g.step(pre+target+" = "+vl, set)
+			g.used["change-store"]++
+		}
+	case 10:
+		t := strings.Replace(target, vt, "ahsame("+vt+")", 1)
+		g.step(pre+t+" = "+vl, set)
+		g.used["change-function-result"]++
+	case 11:
+		g.replace(h, false)
+	}
+}
+
+// replace: the expression gets a whole new value; the other expressions keep the old container
+func (g *c07ahGen) replace(h c07ahRef, arr bool) {
+	if h.base == "$" && len(h.path) == 0 {
+		return
+	}
+	proto := g.container(arr, 0)
+	g.step(h.text()+" = "+c07ahLit(g.r, proto), func(w *c07ahWorld) { h.set(w, c07ahCopy(proto)) })
+	g.used["change-replace"]++
+}
+
+// rounds: walk, change (mostly through another expression), walk the SAME expression again
+func (g *c07ahGen) rounds(h c07ahRef, n int) {
+	r := g.r
+	for i := 0; i < n; i++ {
+		x, _ := h.get(g.gw).(*c07ahNode)
+		if x == nil {
+			return
+		}
+		al := g.aliases(x)
+		if len(al) == 0 {
+			return
+		}
+		if len(al) < 2 || chance(r, 0.35) {
+			g.mkAlias(pick(r, al))
+			al = g.aliases(x)
+		}
+		hr := h
+		if chance(r, 0.3) {
+			hr = pick(r, al)
+		}
+		g.walk(hr, false)
+		for j, m := 0, 1+r.Intn(2); j < m; j++ {
+			g.mutate(hr)
+		}
+		g.walk(hr, false)
+		if chance(r, 0.3) && hr.text() != h.text() {
+			g.walk(h, true)
+		}
+	}
+}
+
+type c07ahProg struct {
+	begin, main, main2, end []c07ahStep
+	records                 []interface{}
+}
+
+func c07ahBody(sb *strings.Builder, head string, steps []c07ahStep) {
+	sb.WriteString(head + " {\n")
+	for _, s := range steps {
+		for _, l := range strings.Split(strings.TrimRight(s.text, "\n"), "\n") {
+			sb.WriteString("  " + l + "\n")
+		}
+	}
+	sb.WriteString("}\n")
+}
+
+func (p *c07ahProg) text() string {
+	var sb strings.Builder
+	sb.WriteString(c07ahFuncs)
+	if len(p.begin) > 0 {
+		c07ahBody(&sb, "BEGIN", p.begin)
+	}
+	if len(p.main) > 0 {
+		c07ahBody(&sb, "", p.main)
+	}
+	if len(p.main2) > 0 {
+		c07ahBody(&sb, "", p.main2)
+	}
+	if len(p.end) > 0 {
+		c07ahBody(&sb, "END", p.end)
+	}
+	return sb.String()
+}
+
+// expected: the whole program executed on a new heap
+func (p *c07ahProg) expected() (string, bool) {
+	w := &c07ahWorld{env: map[string]interface{}{}}
+	run := func(steps []c07ahStep) {
+		for _, s := range steps {
+			s.run(w)
+		}
+	}
+	run(p.begin)
+	for _, rec := range p.records {
+		w.dollar = c07ahCopy(rec)
+		run(p.main)
+		run(p.main2)
+	}
+	w.dollar = nil
+	run(p.end)
+	return w.out.String(), !w.fail
+}
+
+func c07ahEmit(g *c07ahGen, p *c07ahProg, shape, kind string, emit func(Case)) {
+	text := p.text()
+	var files []File
+	meta := metaProg(text, "shape", shape, "container", kind, "row", shape, "col", kind, "steps", c07Hist(g.used))
+	if p.records != nil {
+		doc := c07ahPretty(&c07ahNode{arr: true, a: p.records}, false)
+		files = []File{{Name: "in.json", Data: []byte(doc)}}
+		meta["input"] = doc
+	}
+	c := Case{Req: RunReq(text, nil, files, false), Fields: []string{"class", "out"}, Meta: meta}
+	if want, ok := p.expected(); ok {
+		c.Oracle = c07OutOracle(want)
+		c.Meta["reference"] = "yes"
+	} else {
+		c.Meta["reference"] = "no"
+		if os.Getenv("C07AH_DEBUG") != "" {
+			fmt.Fprintln(os.Stderr, "NOREF", shape, "\n"+text, meta["input"])
+		}
+	}
+	emit(c)
+}
+
+func c07ahNew(r *rand.Rand) *c07ahGen {
+	return &c07ahGen{r: r, gw: &c07ahWorld{env: map[string]interface{}{}}, used: map[string]int{}}
+}
+
+func c07ahKind(arr bool) string {
+	if arr {
+		return "array"
+	}
+	return "object"
+}
+
+// c07GenAliasHistory: one BEGIN rule, 1-2 containers in variables, 2-4 rounds each, interleaved
+func c07GenAliasHistory(r *rand.Rand, tier string, emit func(Case)) {
+	n := tierN(tier, 900, 15000)
+	for i := 0; i < n; i++ {
+		g := c07ahNew(r)
+		p := &c07ahProg{}
+		g.cur = &p.begin
+		arr := chance(r, 0.3)
+		names := []string{pick(r, []string{"o", "seen", "tbl"})}
+		if arr {
+			names[0] = pick(r, []string{"arr", "list"})
+		}
+		targets := []c07ahRef{g.assign(names[0], g.container(arr, 0))}
+		if chance(r, 0.3) {
+			targets = append(targets, g.assign("second", g.container(arr, 1)))
+		}
+		if chance(r, 0.25) {
+			// the container lives in a member of another one from the start
+			t := targets[0]
+			g.step("box = {inner: "+t.text()+", n: 1}", func(w *c07ahWorld) {
+				w.env["box"] = &c07ahNode{m: map[string]interface{}{"inner": t.get(w), "n": float64(1)}}
+			})
+			targets[0] = c07ahRef{base: "box"}.sub("inner", chance(r, 0.5))
+			g.refs = append(g.refs, targets[0])
+		}
+		for j, m := 0, 2+r.Intn(3); j < m; j++ {
+			g.rounds(pick(r, targets), 1)
+		}
+		for _, t := range targets {
+			g.walk(t, true)
+		}
+		c07ahEmit(g, p, "begin", c07ahKind(arr), emit)
+	}
+}
+
+// c07GenAliasRecords: the histories per record over 2-4 records: on `$`, on a member of `$`, on
+// a container kept in a global across the records (keys taken from the record), on the previous
+// record kept in a global
+func c07GenAliasRecords(r *rand.Rand, tier string, emit func(Case)) {
+	n := tierN(tier, 600, 10000)
+	for i := 0; i < n; i++ {
+		g := c07ahNew(r)
+		p := &c07ahProg{}
+		arr := chance(r, 0.25)
+		shape := pick(r, []string{"dollar", "member", "global", "global", "previous"})
+		if shape == "dollar" || shape == "previous" {
+			arr = false
+		}
+		nrec := 2 + r.Intn(3)
+		names := []string{"ann", "bob", "ann", "cy", "Bob"}
+		for j := 0; j < nrec; j++ {
+			var rec *c07ahNode
+			switch shape {
+			case "dollar", "previous":
+				rec = g.container(false, 1)
+				delete(rec.m, "sub")
+			default:
+				rec = &c07ahNode{m: map[string]interface{}{"name": pick(r, names), "id": float64(r.Intn(4)), "o": g.container(arr, 0)}}
+			}
+			p.records = append(p.records, rec)
+		}
+		g.gw.dollar = c07ahCopy(p.records[0])
+		dollar := c07ahRef{base: "$"}
+		switch shape {
+		case "dollar":
+			g.cur = &p.main
+			g.refs = append(g.refs, dollar)
+			g.rounds(dollar, 1+r.Intn(3))
+			if chance(r, 0.4) {
+				g.cur = &p.main2
+				g.walk(dollar, true)
+			}
+		case "member":
+			g.cur = &p.main
+			t := dollar.sub("o", chance(r, 0.6))
+			g.refs = append(g.refs, t)
+			if chance(r, 0.5) {
+				g.recKeys = []string{"name", "id"}
+			}
+			g.rounds(t, 1+r.Intn(3))
+			g.step("print \"rec\", $", func(w *c07ahWorld) { w.print("rec", w.dollar) })
+		case "global":
+			g.cur = &p.begin
+			t := g.assign(pick(r, []string{"seen", "tbl"}), g.container(arr, 0))
+			for j, m := 0, r.Intn(3); j < m; j++ {
+				g.mkAlias(pick(r, g.aliases(t.node(g.gw))))
+			}
+			if chance(r, 0.3) {
+				g.walk(t, true)
+			}
+			g.cur = &p.main
+			g.recKeys = []string{"name", "id"}
+			g.rounds(t, 1+r.Intn(2))
+			g.recKeys = nil
+			g.cur, g.noDollar = &p.end, true
+			g.walk(t, true)
+		case "previous":
+			g.cur = &p.begin
+			t := g.assign("prev", g.container(false, 1))
+			g.cur = &p.main
+			g.refs = append(g.refs, dollar)
+			g.rounds(t, 1)
+			g.step("prev = $", func(w *c07ahWorld) { w.env["prev"] = w.dollar })
+			g.rounds(pick(r, []c07ahRef{t, dollar}), 1+r.Intn(2))
+			g.cur, g.noDollar = &p.end, true
+			g.walk(t, true)
+		}
+		c07ahEmit(g, p, shape, c07ahKind(arr), emit)
+	}
+}
+
+func init() {
+	register(Family{
+		Name: "forin-alias-history", Prop: "C07",
+		Rule: "histories on shared containers in one BEGIN rule: 1-2 objects (30 %: arrays) in variables (25 %: in a member of another object), 2-4 rounds of: for-in over an expression denoting the container (1 and 2 variables; plain, counting, with a break, with a new key stored through an alias during the loop, with the same object walked again through an alias, through the item variable of a loop over a holder), print of the container and / or its length(), 1-2 changes made mostly through ANOTHER expression for the same container (a second variable, an element of an array / a member of an object / two levels deep / the member of a pluck result / pushed onto an array, a function parameter one and two calls deep, a function that walks, changes and walks again, a function result, the item variable of a for-in over the holder with and without a guard) or directly: new key by .k / [\"k\"] / [var] / [number], ++ / += / -= on a new key, auto-creation one and two levels deep, value update of an existing key, whole-value replacement; arrays: push, append by index, pop / popfirst, element update, never during a loop over that array), then the SAME expression walked again; oracle: the generator runs every step on its own heap with sharing: each walk must visit exactly the sorted keys / the elements the container has when the loop starts, print and length() agree; every program is also compared with the model",
+		Gen:  c07GenAliasHistory,
+	})
+	register(Family{
+		Name: "forin-alias-records", Prop: "C07",
+		Rule: "the same histories per record over 2-4 records: on `$` itself (a second rule walks it again), on a member `$.o` (object or array; keys taken from the record), on a container made in BEGIN and kept in a global across the records together with aliases made in BEGIN (counting by `$.name` / `$.id` through an alias, walked in END), on the previous record kept in a global (`prev = $` between the rounds); oracle and model comparison as in forin-alias-history",
+		Gen:  c07GenAliasRecords,
 	})
 }
